@@ -432,6 +432,10 @@ func init() {
 	registerRule(&RuleDef{ID: "P-NIL-LOOKUP", Min: 1, Doc: "the client's notification handlers dereference a pointer read out of a map only after a presence or nil test", Run: rulePNILLOOKUP})
 	add("C18", "P-NIL-LOOKUP")
 	add("C01", "P-NIL-LOOKUP")
+	registerRule(&RuleDef{ID: "L-ORDER", Min: 1, Doc: "no two lock classes are taken in both orders (callers included)", Run: ruleLORDER})
+	add("C18", "L-ORDER", "W4")
+	add("C17", "L-ORDER")
+	add("C16", "L-ORDER")
 	add("C01", "ERR-LOOP")
 	add("C03", "X1", "MAX-ONE")
 	add("C04", "MAX-ONE")
